@@ -1,7 +1,7 @@
 (** C20 -- learned-model support: application, data iteration and persistence.
     Only statements; each closed by [exact] of a lemma of coq/theories/C20. *)
 From Coq Require Import List Arith Bool Permutation.
-From SV Require Import C20.FlaxMap C20.IterateData C20.Checkpoint C20.Exec.
+From SV Require Import C20.FlaxMap C20.IterateData C20.Checkpoint C20.Sharding C20.Exec.
 Import ListNotations.
 
 (** (a) FlaxMap.__call__, any network [apply], any data: rank 2 *)
@@ -92,6 +92,29 @@ Theorem C20_pairing :
     select (g dx) (map g images) idx = map g (select dx images idx).
 Proof. exact (fun X Y => @pairing X Y). Qed.
 Print Assumptions C20_pairing.
+
+(** sharding of a host batch over D devices (prepare_data): D shards of m rows, device d holds
+    the contiguous block d*m .. d*m+m-1, un-sharding (device order) is the identity: the row
+    order -- dataset order for the evaluation iterator -- survives sharding *)
+Theorem C20_sharding :
+  forall (A : Type) (D m : nat) (l : list A),
+    length l = D * m ->
+    unshard (shard D m l) = l /\
+    length (shard D m l) = D /\
+    Forall (fun s => length s = m) (shard D m l) /\
+    (forall d, d < D -> nth d (shard D m l) [] = firstn m (skipn (d * m) l)).
+Proof.
+  exact (fun A D m l H => conj (@unshard_shard A D m l H) (conj (@shard_count A D m l)
+          (conj (@shard_sizes A D m l H) (@shard_block A D m l)))).
+Qed.
+Print Assumptions C20_sharding.
+
+Theorem C20_sharding_rows :
+  forall (A : Type) (D m : nat) (l : list A) (dflt : A) (i : nat),
+    0 < m -> length l = D * m -> i < D * m ->
+    nth (i mod m) (nth (i / m) (shard D m l) []) dflt = nth i l dflt.
+Proof. exact (fun A D m l dflt i => @shard_row A D m l dflt i). Qed.
+Print Assumptions C20_sharding_rows.
 
 (** (c) checkpoints: after saves at strictly increasing steps (above anything already in
     the directory) the directory holds the last three, restore returns the last one *)
